@@ -35,8 +35,8 @@ TARGETS_QUICK = [(n, "asan") for n in IDX_TARGETS + VIEW_TARGETS] + [("c06_index
 K_LIST, K_ARRAY, K_SVEC, K_NONE, K_ILIST = 0, 1, 3, 4, 5
 K_SVEC2 = 7
 KN = {0: "list", 1: "array", 3: "svec", 4: "none", 5: "ilist", 7: "svec2"}
-MENU_CONST = {0: (2, 3), 1: (1, 3), 2: (3,), 3: (2, 1, 3)}
-MENU_KIND = {0: "const", 1: "const", 2: "const", 3: "const", 4: "clip-tuple", 5: "clip-array"}
+MENU_CONST = {0: (2, 3), 1: (1, 3), 2: (3,), 3: (2, 1, 3), 6: (3, 1), 7: (2, 3, 1)}
+MENU_KIND = {0: "const", 1: "const", 2: "const", 3: "const", 4: "clip-tuple", 5: "clip-array", 6: "const", 7: "const"}
 A_DYN, A_HYB, A_NUM = 0, 1, 2
 AN = {0: "dyn", 1: "hybrid", 2: "scalar"}
 
